@@ -13,8 +13,7 @@ from .rsreplay import NativeRunner
 
 PROP = 'C04'
 QUOTAS = {
-    'quick': {'cheap': 4, 'medium': 4, 'heavy': 1, 'F1:cheap': 20, 'F2:medium': 12, 'F6:cheap': 6, 'R:cheap': 6,
-              'R:medium': 8, 'R:heavy': 1},
+    'quick': {'cheap': 2, 'medium': 3, 'heavy': 1, 'F1:cheap': 12, 'F2:medium': 10, 'F6:cheap': 3, 'R:cheap': 5, 'R:medium': 6, 'R:heavy': 1},
     'thorough': {'cheap': 150, 'medium': 80, 'heavy': 12, 'F1:cheap': 500, 'F2:medium': 120, 'R:cheap': 60,
                  'R:medium': 70, 'R:heavy': 16},
 }
